@@ -75,11 +75,17 @@ func ReadWithDirectory(r io.ReaderAt, size int64, cd []byte) (*Directory, error)
 	dirLoc := size - int64(len(cd))
 	files := make([]*File, 0)
 	for {
-		if binary.LittleEndian.Uint32(cd) != directoryHeaderSignature {
+		if len(cd) < 4 || binary.LittleEndian.Uint32(cd) != directoryHeaderSignature {
 			break
+		}
+		if len(cd) < directoryHeaderLen {
+			return nil, errors.New("zip central directory is truncated")
 		}
 		var hdr zipCentralDir
 		_ = binary.Read(bytes.NewReader(cd), binary.LittleEndian, &hdr)
+		if len(cd) < directoryHeaderLen+int(hdr.FilenameLen)+int(hdr.ExtraLen)+int(hdr.CommentLen) {
+			return nil, errors.New("zip central directory is truncated")
+		}
 		f := &File{
 			CreatorVersion:   hdr.CreatorVersion,
 			ReaderVersion:    hdr.ReaderVersion,
@@ -141,6 +147,9 @@ func ReadWithDirectory(r io.ReaderAt, size int64, cd []byte) (*Directory, error)
 		DirLoc: dirLoc,
 		r:      r,
 	}
+	if len(cd) < 4 {
+		return nil, errors.New("expected end record")
+	}
 	rd := bytes.NewReader(cd)
 	switch binary.LittleEndian.Uint32(cd) {
 	case directory64EndSignature:
@@ -159,6 +168,9 @@ func Read(r io.ReaderAt, size int64) (*Directory, error) {
 	loc, err := FindDirectory(r, size)
 	if err != nil {
 		return nil, err
+	}
+	if loc < 0 || loc > size {
+		return nil, errors.New("zip central directory is outside the file")
 	}
 	cd := make([]byte, size-loc)
 	if _, err := r.ReadAt(cd, loc); err != nil {
